@@ -5,7 +5,7 @@
 From Coq Require Import ZArith NArith List Bool String.
 Require Import Webob.Lib.Val Webob.Lib.PyStr Webob.Lib.Rx Webob.Gen.C03_regexes Webob.Spec.C03_abnf
                Webob.Model.C03_scan Webob.Proofs.C03_scan Webob.Proofs.C03_accept_scan
-               Webob.Model.C19_acceptstr Webob.Proofs.C19_quote Webob.Proofs.C19_valid Webob.Proofs.C19_simple
+               Webob.Model.C19_acceptstr Webob.Spec.C19_spec Webob.Proofs.C19_quote Webob.Proofs.C19_valid Webob.Proofs.C19_simple
                Webob.Proofs.C19_add Webob.Proofs.C19_families Webob.Proofs.C19_accept_scan Webob.Proofs.C19_accept Webob.Proofs.C19_top.
 Import ListNotations.
 Local Open Scope N_scope.
@@ -197,7 +197,7 @@ Example C19_add_example :
   exists h1 h2, add_val fam_charset h0 v1 false = Ret h1 /\ add_val fam_charset h1 v2 true = Ret h2 /\
     elements h2 = [(H "62"%string, 1000); (H "61"%string, 250); (H "7574662d38"%string, 500); (H "69736f2d383835392d35"%string, 1000); (H "2a"%string, 0)].
 Proof.
-  cbv zeta. split; [split; [vm_compute; reflexivity|exact I]|].
+  cbv zeta. split; [vm_compute; split; [reflexivity|exact I]|].
   eexists. eexists. split; [vm_compute; reflexivity|]. split; vm_compute; reflexivity.
 Qed.
 
